@@ -528,6 +528,9 @@ pub fn generate(profile_name: &str, seed: u64) -> Scenario {
     if profile_name == "idle" && seed % 160 == 17 {
         return generate_marathon(seed);
     }
+    if profile_name == "idle" && seed % 48 == 11 {
+        return generate_selfowned(seed);
+    }
     if (profile_name == "lifecycle" || profile_name == "kill") && seed % 16 == 5 {
         let mut sc = generate_pileup(seed);
         sc.profile = profile_name.to_string();
@@ -1123,6 +1126,42 @@ fn generate_overlap(seed: u64) -> Scenario {
         sample_until: 61,
         default_cap: 32,
         fixed_timing: true,
+    }
+}
+
+/// An actor that owns the only strong reference to itself (kept in its state since on_start) and whose on_run lets go of it and
+/// returns an outcome in the same poll: Err (=> Failed(OnRun) after on_stop(false)), Ok(false) (=> ends because unreferenced),
+/// or Ok(true) (same). Two reasons to end become true in one poll; the hook's own outcome must not get lost.
+fn generate_selfowned(seed: u64) -> Scenario {
+    let mut r = Rng::new(seed ^ 0x5E1F);
+    let out = *r.pick(&[Out::Err, Out::Err, Out::False, Out::True]);
+    let actor = ActorSpec {
+        cap: Some(4),
+        start: HookScript { delay: 0, steps: vec![Step::HoldSelf], out: Out::Ok },
+        run: vec![
+            RunStep { segs: vec![2 * r.range(1, 3)], steps: vec![], out: Out::True },
+            RunStep { segs: vec![2 * r.range(2, 5)], steps: vec![Step::DropHeld(0)], out },
+        ],
+        stop: HookScript { delay: if r.chance(30) { 2 } else { 0 }, steps: vec![], out: Out::Ok },
+        run_err_when_handled: None,
+        in_peers: false,
+    };
+    let mut ops = vec![];
+    if r.chance(50) {
+        ops.push(ClientOp { pre: Pre::None, op: Op::Send { slot: 0, kind: SendKind::Ask, mty: MTy::U, body: Body::plain(1) } });
+    }
+    ops.push(ClientOp { pre: Pre::None, op: Op::DropSlot { slot: 0 } });
+    Scenario {
+        seed,
+        pert: 0,
+        profile: "idle".to_string(),
+        actors: vec![actor],
+        clients: vec![ClientSpec { init: vec![Some(0), None, None, None], ops, drop_at_end: true }],
+        ngates: 1,
+        teardown: vec![Teardown::DropAll],
+        sample_until: 31,
+        default_cap: 32,
+        fixed_timing: false,
     }
 }
 
